@@ -40,3 +40,16 @@ def _pending_view(b, params):
     visible in it (and in everything computed from it).  Recognised ONLY when the specification's mechanism level marks the
     handle stale AND the observed content is exactly what the mechanism level predicts for it."""
     return b.get("family") == "heap" and bool(b.get("stale")) and bool(b.get("mech_match"))
+
+
+@classifier("uint64_keys_signed_query")
+def _uint64(b, params):
+    """Tables whose key dtype is uint64 and whose modulus is the default (a numpy uint64 scalar) hash python-int / int64 queries to
+    float64, which numpy refuses as an index: vector lookup, assignment and contains raise IndexError for keys that are present.
+    Mechanism prediction for this class: the call raises IndexError (no wrong value is returned)."""
+    o = b.get("opts") or {}
+    st = (b.get("steps") or [[None]])[-1]
+    obs = b.get("observed")
+    raised = isinstance(obs, list) and len(obs) > 1 and isinstance(obs[1], list) and obs[1][:2] == ["raised", "IndexError"]
+    return (b.get("family") == "hash" and o.get("kdt") == "u8" and o.get("default_mod") and o.get("query") == "list"
+            and b.get("handle") == 0 and st[0] in ("getvec", "set", "contains") and raised)
